@@ -30,6 +30,9 @@ def rule_set(ctx, R):
     ws = write_set(ctx)
     R.floor("write_set_names", len(ws))
     R.floor("dispatcher_arms", len(arms))
+    if not ws:
+        R.broken.append("the write set of is_write_command is not recognised (no string comparison whose true edge returns true: a table lookup?): the rule cannot be evaluated")
+        return
     pb = ctx.prog.need(PNC)
     n = 0
     for name, a in sorted(arms.items()):
